@@ -18,6 +18,13 @@ package message
 //@   at make#3: allocbound cap <= 2097152
 //@   loop 1: invariant 0 <= i && extra <= 8192 && (extra > 0 ==> len(m.Addrs) == extra) && (n0 == 3 || n0 == 4) && (hasOrigPeer <==> n0 == 4)
 //@   loop 1: decreases extra - i
+// errors for size are raised only above the caps the encoder allows (so every message the
+// encoder accepts is accepted back); Errorf ordinals follow the source order of the decoder
+//@   at call Errorf#2: assert extra > 4
+//@   at call Errorf#3: assert extra < 3
+//@   at call Errorf#5: assert extra > 8192
+//@   at call Errorf#7: assert extra > 2097152
+//@   at call Errorf#9: assert extra > 2097152
 //@   ensures-local result == nil ==> (n0 == 3 || n0 == 4)
 //@   ensures-local result == nil ==> (n0 == 4 ==> count("call:ReadString") == 1) && (n0 == 3 ==> count("call:ReadString") == 0)
 //@   ensures-local result == nil ==> count("call:ReadCid") == 1
@@ -29,7 +36,14 @@ package message
 //@   requires w != nil
 //@   at call Write#2: assert len(arg1) == 1 && arg1[0] == ite(str(m.OrigPeer) == str(""), 131, 132)
 //@   at call WriteMajorTypeHeaderBuf#1: assert len(m.Addrs) <= 8192 && arg3 == len(m.Addrs)
-//@   at call WriteMajorTypeHeaderBuf#2: assert arg3 <= 2097152
+//@   at call WriteMajorTypeHeaderBuf#2: assert arg3 <= 2097152 && arg3 == len(m.Addrs[rangeindex]) && arg2 == 2
+//@   at call Write#3: assert arg1 == m.Addrs[rangeindex]
+//@   loop 1: invariant rangeindex < len(m.Addrs)
+//@   loop 1: iteration ghost hdr := false
+//@   loop 1: iteration ghost body := false
+//@   at call WriteMajorTypeHeaderBuf#2: ghost hdr := true
+//@   at call Write#3: ghost body := true
+//@   loop 1: iteration ensures hdr && body
 //@   at call WriteMajorTypeHeaderBuf#3: assert len(m.ExtraData) <= 2097152 && arg3 == len(m.ExtraData)
 //@   at call WriteMajorTypeHeaderBuf#4: assert len(m.OrigPeer) <= 8192 && arg3 == len(m.OrigPeer)
 //@   ensures-local result == nil && m != nil ==> (str(m.OrigPeer) != str("") <==> count("call:WriteString") == 1)
